@@ -2,7 +2,7 @@
 import ast
 from sa.index import AnalysisError, FuncInfo
 from sa.paths import call_name
-from rules.common import Quiet, txt, paths_of, loc, tests_on, strip_not, check_none_default
+from rules.common import returned_values, cmp_text, Quiet, txt, paths_of, loc, tests_on, strip_not, check_none_default
 
 CLS = 'cacheutils.ThresholdCounter'
 SPEC = {
@@ -228,6 +228,47 @@ def run(ctx):
             ok = False
             det = 'returns %s' % txt(e)
     ctx.ob('T17', guc.fq, 'uncommon = total - common by construction (value returned on every path)', ok, loc=guc.loc, detail=det)
+    # update: every element of every source reaches add(); keyword counts (when present) are fed back through update
+    n_add = 0
+    w, paths = paths_of(prog, up, recv=ci)
+    for p in paths:
+        if p.kind != 'return':
+            continue
+        iters = [o for o in p.ops if o.kind == 'iter_next' and o.info is not False and o.depth == 0]
+        bounds = [o.seq for o in iters] + [10 ** 9]
+        # innermost element steps: an iteration step that is not followed by a nested iteration start before the next step
+        for a, b in zip(bounds, bounds[1:]):
+            seg = [o for o in p.ops if a < o.seq < b]
+            nested = any(o.kind == 'iter_start' for o in seg)
+            if nested:
+                continue
+            nxt_break = next((o.seq for o in p.ops if o.seq > a and o.kind == 'iter_next' and o.info is False), 10 ** 9)
+            seg = [o for o in seg if o.seq < nxt_break]
+            added = any(o.kind == 'call' and txt(o.val.func) in ('self.add', 'add') for o in seg)
+            n_add += 1
+            ctx.ob('T9.addall', up.fq, 'every element step of update() calls add() (so total and the counts move together)', added,
+                   loc=up.loc, path=p.describe() if not added else None)
+        kw_true = any(t == 'kwargs' and truth for t, truth, o in tests_on(w, p))
+        if kw_true:
+            fed = any(o.kind == 'call' and txt(o.val.func) in ('self.update',) and o.val.args and txt(o.val.args[0]) == 'kwargs' for o in p.ops) or \
+                any(o.kind == 'iter_start' and 'kwargs' in txt(w.expand(o.val)) for o in p.ops)
+            ctx.ob('T9.kwargs', up.fq, 'keyword counts, when given, are fed back through update()/add()', fed, loc=up.loc,
+                   path=p.describe() if not fed else None)
+    if n_add == 0:
+        ctx.unknown('T9.addall', up.fq, 'no element step found in update()', up.loc)
+    # most_common: every answer is the count-sorted list, a prefix of it, or the empty list for n <= 0
+    mc = prog.func(CLS + '.most_common')
+    for e, p, wm in returned_values(prog, mc, recv=ci):
+        t = txt(e)
+        ts = tests_on(wm, p)
+        nonpos = any(cmp_text(o.node, 'n') == 'n <= 0' and o.info is True for _, _, o in ts) or \
+            any(cmp_text(o.node, 'n') == 'n > 0' and o.info is False for _, _, o in ts)
+        srt = isinstance(e, ast.Call) and call_name(e) == 'sorted'
+        pre = isinstance(e, ast.Subscript) and isinstance(e.value, ast.Call) and call_name(e.value) == 'sorted' and \
+            isinstance(e.slice, ast.Slice) and e.slice.lower is None and e.slice.step is None and txt(e.slice.upper) == 'n'
+        emp = t == '[]' and nonpos
+        ctx.ob('T17.mc', mc.fq, 'most_common answers with the count-sorted pairs, their first n, or [] for n <= 0', srt or pre or emp,
+               loc=mc.loc, detail='returns %s' % t[:80], path=p.describe() if not (srt or pre or emp) else None)
     for name in ('itervalues', 'iteritems', '__getitem__'):
         f = prog.func(CLS + '.' + name)
         subs = [txt(n) for n in ast.walk(f.node) if isinstance(n, ast.Subscript) and txt(n).endswith('[0]')]
